@@ -156,6 +156,7 @@ class Scratch:
     def __init__(self, tag):
         self.dir = os.path.join(SCRATCH_ROOT, "verif-%s-%d" % (tag, os.getpid()))
         self.notes = []
+        self.slice_failures = []
 
     def create(self):
         if os.path.exists(self.dir):
@@ -198,7 +199,9 @@ class Scratch:
                     text += "\n" + code + "\n"
                     self.notes.append("slice %s regenerated from current source" % spec.split()[0])
                 except slices.SliceError as e:
-                    problems.append("slice %s: %s" % (spec, e))
+                    self.notes.append("slice %s UNAVAILABLE: %s (dependent harnesses become inconclusive)" % (spec.split()[0], e))
+                    self.slice_failures.append("slice %s: %s" % (spec.split()[0], e))
+                    text += "\n" + slices.unavailable(spec) + "\n"
             if extra_test and extra_test.get("file") == hf.base:
                 text += "\n" + extra_test["code"] + "\n"
             with open(dst, "w") as f:
@@ -607,6 +610,8 @@ def run_check(prop, tier, only, keep, jobs):
         if problems:
             for p in problems:
                 log("INCONCLUSIVE %s: %s" % (prop, p))
+        for sf in scratch.slice_failures:
+            log("[%s] %s -> dependent harnesses will be inconclusive" % (prop, sf))
         by_crate = {}
         for h in harnesses:
             by_crate.setdefault(h.file.crate, []).append(h)
@@ -664,8 +669,9 @@ def run_check(prop, tier, only, keep, jobs):
                 continue
             v = verdicts[h.name]
             log("[%s] extracting counterexample for %s" % (prop, h.name))
+            # the trace-producing pass is several times slower than the verdict pass
             rc, out, data, wall = run_kani(scratch, h.file.crate, [h.name],
-                                           max(timeout_s, h.timeout or 0) * 2, mem_kb, 1,
+                                           max(3 * max(timeout_s, h.timeout or 0), 3600), mem_kb * 2, 1,
                                            playback=True, tag="pb-" + h.name)
             tests = extract_playback(out, h.name)
             if not tests:
